@@ -26,7 +26,8 @@ Inductive tstep (s : state) : task -> task -> Prop :=
       (k_final x = true -> coord_success s (k_t x) = true) ->
       (k_kind x = KSubmission -> k_phase x = 2 \/ k_phase x = 5) ->
       tstep s x (with_st (with_flags x true true false) TPost)
-  | ts_main_fail x : k_st x = TMain -> k_kind x <> KSubmission -> tstep s x (with_st x TFailed)
+  | ts_main_fail x : k_st x = TMain -> k_kind x <> KSubmission ->
+      (k_final x = true -> coord_success s (k_t x) = false) -> tstep s x (with_st x TFailed)
   | ts_exc_failed x : k_st x = TFailed -> tstep s x (with_st x TPost)
   | ts_sub_exc x : k_st x = TMain -> k_kind x = KSubmission -> k_phase x < 3 -> tstep s x (with_phase x 3)
   | ts_status x p : k_st x = TMain -> k_kind x = KSubmission -> k_phase x = p -> (p = 0 \/ p = 1) ->
@@ -215,13 +216,16 @@ Proof.
     eapply upd_task_by_tstep_f; [exact Eft| |intros y; now destruct ok].
     destruct ok.
     + apply ts_main_ok; [now apply tst_eqb_true| |].
-      * intros Hfin. rewrite Hfin in *. cbn in *. unfold coord_success. now rewrite Efc.
+      * intros Hfin. rewrite Hfin in *. unfold coord_success. rewrite Efc.
+        match goal with Hb : eqb true (status_eqb _ Success) = true |- _ => apply eqb_prop in Hb; now rewrite <- Hb end.
       * intros Hk. unfold KSubmission in *.
         destruct (k_kind t =? 0) eqn:Ek; [|lia].
         match goal with Hs : true && _ = true |- _ => cbn in Hs; apply orb_prop in Hs as [Hs|Hs]; lia end.
-    + apply ts_main_fail; [now apply tst_eqb_true|].
-      intros Hk. unfold KSubmission in *. destruct (k_kind t =? 0) eqn:Ek; [|lia].
-      match goal with Hs : false && _ = true |- _ => discriminate Hs end.
+    + apply ts_main_fail; [now apply tst_eqb_true| |].
+      * intros Hk. unfold KSubmission in *. destruct (k_kind t =? 0) eqn:Ek; [|lia].
+        match goal with Hs : false && _ = true |- _ => discriminate Hs end.
+      * intros Hfin. rewrite Hfin in *. unfold coord_success. rewrite Efc.
+        match goal with Hb : eqb false (status_eqb _ Success) = true |- _ => apply eqb_prop in Hb; now rewrite <- Hb end.
   - (* ESetResult *)
     inv H. destruct (find_task k (tasks s)); [|discriminate]. inv H. sub_on_coord H. tasks_same.
   - (* ESetException *)
